@@ -7,6 +7,7 @@ sample of them, (iii) a mutation-based byte fuzzer.  Independent oracles: the
 parsed tree entries / tree+parent / object+type values must equal the ones the
 generator put in, and no input may make the implementation panic.
 """
+import json
 import random
 import vlib
 
@@ -195,6 +196,42 @@ def run(ctx):
             if not ok:
                 res.violations.append(vlib.Violation("parse result is not what the generator serialised (round trip)",
                                                      {"request": line}, expected=exp, observed=a))
+    # the listing parsers at work: lines of valid git output that are far longer than any fixed buffer (a reference name of
+    # 65 400 ... 200 000 bytes, legal in packed-refs; a size of 20 digits cannot occur, a name of 200 KB can) reach ParseReference
+    # whole — the run succeeds and counts the reference
+    import os, shutil, subprocess
+    import scenario as S
+    scratch = vlib.mkscratch()
+    try:
+        for n in (4200, 65400, 65500, 70000, 200000):
+            sc = S.Scenario()
+            b = sc.add({"kind": "blob", "data": b"x"})
+            t = sc.add({"kind": "tree", "entries": [(0o100644, b"f", b)]})
+            c = sc.add({"kind": "commit", "tree": t, "parents": []})
+            sc.refs.append((b"refs/heads/main", c))
+            sc.compute()
+            d = os.path.join(scratch, "longref%d" % n)
+            gitdir = sc.materialise(d)
+            longname = b"refs/heads/" + b"/".join([b"c" * 200] * ((n - 11) // 201)) + b"/end"
+            with open(os.path.join(gitdir, "packed-refs"), "ab") as f:
+                f.write(sc.oids[c].hex().encode() + b" " + longname + b"\n")
+            chk = subprocess.run(["git", "--git-dir", gitdir, "for-each-ref", "--format=%(refname)"], stdout=subprocess.PIPE, stderr=subprocess.PIPE, env=S.clean_env())
+            if chk.returncode != 0 or longname not in chk.stdout:
+                continue
+            rc, out, err = S.run_sizer(ctx["bins"]["sizer"], d, ["--json", "--no-progress"])
+            res.case(("long-reference-line", n), True)
+            inp = {"for-each-ref line": "%s commit <size> refs/heads/ccc.../end (%d bytes)" % (sc.oids[c].hex(), len(longname) + 60)}
+            nrefs = None
+            if rc == 0:
+                try:
+                    nrefs = json.loads(out)["reference_count"]
+                except Exception:
+                    nrefs = None
+            if nrefs != 2:
+                res.violations.append(vlib.Violation("a valid for-each-ref line of %d bytes is not read as one reference" % (len(longname) + 60), inp,
+                                                     expected={"rc": 0, "reference_count": 2}, observed={"rc": rc, "reference_count": nrefs, "stderr": err[:200].decode("latin1")}))
+    finally:
+        shutil.rmtree(scratch, ignore_errors=True)
     res.coverage_extra["input_distribution"] = dist
     res.coverage_extra["outcomes"] = outcomes
     res.assumptions = ["strconv.ParseUint, hex.DecodeString and strings.Split are modelled by their documented behaviour"]
